@@ -237,6 +237,35 @@ def run(prog: Program, res: Result, tier: str) -> None:
              "differences of rows, squared, summed over the last axis and "
              "square-rooted (rigid-motion invariant by construction, "
              "symmetric, zero diagonal)")
+    # number text is not post-processed with a character-set strip that can
+    # eat digits of the integer part ("100.00000000".rstrip("0.") == "1")
+    res.rule("X-NUMTEXT", "a formatted coordinate is never passed through "
+             "str.strip / rstrip with a character set that contains both '0' "
+             "and '.': such a strip removes zeros of the integer part")
+    n_strip = 0
+    for fi_ in prog.functions.values():
+        if fi_.module.name != "coords":
+            continue
+        for c in ast.walk(fi_.node):
+            if isinstance(c, ast.Call) and isinstance(
+                    c.func, ast.Attribute) and c.func.attr in (
+                    "rstrip", "strip") and len(c.args) == 1 and isinstance(
+                    c.args[0], ast.Constant) and isinstance(
+                    c.args[0].value, str):
+                n_strip += 1
+                chars = c.args[0].value
+                inst_ = f"{fi_.short}: {norm(c, 60)}"
+                if "0" in chars and "." in chars:
+                    res.bad("X-NUMTEXT", inst_, fi_.loc(c),
+                            f"{fi_.short}: `{norm(c, 60)}` strips the "
+                            f"character set {chars!r}, not a suffix: "
+                            "'100.00000000' becomes '1', '-250.00000000' "
+                            "becomes '-25'; the text read back is a "
+                            "different coordinate")
+                else:
+                    res.ok("X-NUMTEXT", inst_, fi_.loc(c))
+    if n_strip == 0:
+        res.ok("X-NUMTEXT", "coords.py: no character-set strip of number text")
     geo = prog.cls("Geometry")
     w = geo.methods.get("xyz_str")
     r = geo.methods.get("_from_xyz_stream")
